@@ -19,6 +19,15 @@ def ppm(x):
     return int(round(float(x) * 1000000))
 
 
+def ppm_recorded(u):
+    """a draw made by numpy's own generator (record mode), in ppm, rounded UP with exact rational arithmetic: for a
+    probability of P ppm, `u <= P / 10^6` holds exactly when the logged integer is <= P, so rounding can never put a
+    recorded draw on the other side of a probability"""
+    from fractions import Fraction
+    x = Fraction(float(u)) * 1000000
+    return int(-((-x.numerator) // x.denominator))
+
+
 def in_numeric_domain(x):
     """|x| <= 1000 with <= 3 decimals: float32 storage cannot move the milli-rounded value"""
     x = float(x)
